@@ -40,7 +40,8 @@ void main() {
 		}
 	}
 	var msgs []string
-	c07xHLSLAddresses(acc[1], []c07xLeaf{{Path: "dst.a", Off: 20, Width: 4, Class: "float"}, {Path: "dst.b", Off: 8, Width: 2, Class: "half"}}, true, func(m string) { msgs = append(msgs, m) })
+	leaves := []c07xLeaf{{Path: "dst.a", Off: 20, Width: 4, Class: "float"}, {Path: "dst.b", Off: 8, Width: 2, Class: "half"}}
+	c07xHLSLAddresses(acc[1], leaves, leaves, true, func(m string) { msgs = append(msgs, m) })
 	// dst.a: stored exactly, never loaded; dst.b: stored with 6 bytes, never loaded; the Interlocked access at 32 is at no leaf
 	if len(msgs) != 4 {
 		t.Errorf("messages: %q", msgs)
